@@ -244,6 +244,12 @@ class Env:
         except BaseException as e:  # noqa: the real run() loop catches everything
             if isinstance(e, (KeyboardInterrupt, SystemExit)):
                 raise
+            # drop the frames: a stored traceback would keep sessions / regions alive (run() only logs the exception)
+            seen, cur = set(), e
+            while cur is not None and id(cur) not in seen:
+                seen.add(id(cur))
+                cur.__traceback__ = None
+                cur = cur.__context__ or cur.__cause__
             return e
         return None
 
